@@ -1031,10 +1031,95 @@ def _w32_witness(ctx, model):
         ctx.disagree("prox.sql2abs.witness", c, pc._js(p_impl), pc._js(p_model), oracle=make_oracle(ctx.seed, p_model))
 
 
+CLASS_FAMS = {
+    "L0Norm": ["l0"], "L1Norm": ["l1"], "SquaredL2Norm": ["sql2"], "L2Norm": ["l2"], "L21Norm": ["l21"], "L1MinusL2Norm": ["l1l2"],
+    "HuberNorm": ["hubersep", "hubernonsep"], "NuclearNorm": ["nuclear"], "NonNegativeIndicator": ["nonneg"], "L2BallIndicator": ["l2ball"],
+    "SetDistance": ["setdist"], "SquaredSetDistance": ["sqsetdist"], "ZeroFunctional": ["zero"], "Loss": ["lossgen"], "SquaredL2Loss": ["sql2loss"],
+    "SquaredL2AbsLoss": ["sql2abs"], "SquaredL2SquaredAbsLoss": ["sql2sqabs"], "_dep_cubic_root": ["sql2sqabs"], "_check_root": ["sql2sqabs"],
+    "_cbrt": ["sql2sqabs"], "solver": ["sql2loss"], "PoissonLoss": [], "Diagonal": ["sql2loss"], "ScaledIdentity": ["sql2loss"], "Identity": ["sql2loss", "sql2abs", "sql2sqabs", "lossgen"],
+}
+LOSS_CLASSES = {"Loss", "SquaredL2Loss", "SquaredL2AbsLoss", "SquaredL2SquaredAbsLoss", "PoissonLoss", "solver", "Diagonal", "ScaledIdentity", "Identity"}
+
+
+def table_diff(model):
+    """rows of the tables extracted from the source that differ from the expected tables of `Scico.ProxTables` (served by the driver):
+    returns (list of human-readable differing rows, set of affected class / helper names)"""
+    exp = model.call("defaults")
+    t = prox_translate.extract()
+    rows, names = [], set()
+    anch = ("_norm.py", "_indicator.py", "_dist.py", "loss.py")
+    eflags = [tuple(r) for r in exp["flags"]]
+    gflags = [tuple(r) for r in t["flags"] if r[0] in anch or r[1] == "ZeroFunctional"]
+    for r in set(eflags) ^ set(gflags):
+        rows.append({"table": "flags", "row": list(r), "side": "expected" if r in eflags else "source"})
+        names.add(r[1])
+    covered = set(exp["covered"]) | {"TVNorm", "BM3D", "BM4D", "DnCNN"}
+    for r in t["flags"]:
+        if r[4] == "True" and r[1] not in covered:
+            rows.append({"table": "flags", "row": list(r), "side": "source: advertises a prox, neither modelled nor excluded"})
+            names.add(r[1])
+    edef = [tuple(r) for r in exp["defaults"]]
+    rel = set(exp["relevant"])
+    gdef = [tuple(r) for r in t["defaults"] if r[0] in rel]
+    for r in set(edef) ^ set(gdef):
+        rows.append({"table": "defaults", "row": list(r), "side": "expected" if r in edef else "source"})
+        names.add(r[0].split(".")[0])
+    edis = {(r[0], r[1]): list(r[2]) for r in exp["dispatch"]}
+    gdis = {(r[0], r[1]): list(r[2]) for r in t["dispatch"]}
+    for k in set(edis) | set(gdis):
+        if edis.get(k) != gdis.get(k):
+            rows.append({"table": "dispatch", "row": list(k), "expected": edis.get(k), "source": gdis.get(k)})
+            names.add(k[0])
+    eb, gb = [tuple(r) for r in exp["bases"]], [tuple(r) for r in t["bases"]]
+    for r in set(eb) ^ set(gb):
+        rows.append({"table": "bases", "row": list(r), "side": "expected" if r in eb else "source"})
+        names.add(r[0])
+    return rows, names
+
+
+def targeted_panel(ctx, model, why):
+    """after a broken generated obligation: exercise exactly the classes whose table rows differ - every family of those classes with the
+    optimality oracle on EVERY case (structured and boundary), their attribute-update histories, and for the losses the guard, reject, default and
+    CG streams - so that a behaviour-changing edit is reported WITH a failing input; a behaviour-preserving one ends with no input."""
+    rows, names = table_diff(model)
+    ctx.extra["table_diff"] = rows
+    fams = sorted({f for nme in names for f in CLASS_FAMS.get(nme, [])})
+    sub = common.Ctx(PROP, ctx.tier, ctx.seed + 1000)
+    sub.known = ctx.known
+    rng = sub.rng
+    print(f"targeted panel after {why.get('module')}: differing rows {len(rows)}, classes {sorted(names)}, families {fams}", flush=True)
+    for fam in fams:
+        for k in range(60):
+            case = pg.structured(rng, fam) if k % 2 == 0 else pg.boundary(rng, fam)
+            check_case(sub, model, case, run_oracle=True)
+            if any(fi for _, fi in sub.violations):
+                break
+        if fam in ATTR_FAMS and not any(fi for _, fi in sub.violations):
+            for _ in range(12):
+                attr_update_case(sub, model, rng, fam)
+    if not any(fi for _, fi in sub.violations):
+        default_cases(sub, model, rng)
+    if names & LOSS_CLASSES and not any(fi for _, fi in sub.violations):
+        guard_cases(sub, model)
+        reject_cases(sub, model)
+        for _ in range(60):
+            cg_case(sub, model, rng)
+            if any(fi for _, fi in sub.violations):
+                break
+    for path, found in sub.violations:
+        if found:
+            rep = json.loads((common.VERIF / path).read_text())
+            return {"table_diff": rows, "panel": fams, "replay": path, "case": rep.get("case"), "failing": rep.get("failing"), "op": rep.get("op")}
+    return None
+
+
 def search(ctx, model, why):
     """failing-input search on the implementation (thorough tier, or when something broke):
-    the optimality oracle on fresh cases of every family, and firm non-expansiveness on pairs."""
+    the optimality oracle on fresh cases of every family, and firm non-expansiveness on pairs.
+    After a broken generated obligation of `Scico.Generated.ProxTables`: the targeted panel on the classes whose rows differ."""
     common.setup_scico()
+    if why is not None and "ProxTables" in str(why.get("module", "")):
+        return targeted_panel(ctx, model, why)
     rng = ctx.rng
     n = ctx.n(8, 40)
     for fam in _families():
